@@ -190,6 +190,19 @@ func orcTrigger(s *orcStep, prop string) string {
 			return "endpoint-imported"
 		}
 	}
+	if k.Edge && te < 0 {
+		// new connection (Create / Set on an unindexed key) between objects this file does not own
+		for _, pth := range [][]string{k.Src, k.Dst} {
+			for i := len(pth); i >= 1; i-- {
+				if p := pre.findObj(pth[:i]); p >= 0 {
+					if foreignUp(p) {
+						return "endpoint-imported"
+					}
+					break
+				}
+			}
+		}
+	}
 	if c.Kind == "move" && !nk.Edge && len(nk.Obj) > 1 {
 		if p := pre.findObj(nk.Obj[:len(nk.Obj)-1]); p >= 0 && pre.Objs[p].Foreign {
 			return "destination-parent-imported"
